@@ -268,9 +268,11 @@ theorem rep_maybeAccept (s : State) (b : BlockAbs) (hr : Rep s) : Rep (maybeAcce
     · split
       · exact hr
       · split
-        · exact rep_connectBest _ _ (rep_of_sameChain (sameChain_setSt s _ _) hr)
-        · apply rep_connectBest
-          unfold Rep at *; exact hr
+        · exact hr
+        · split
+          · exact rep_connectBest _ _ (rep_of_sameChain (sameChain_setSt s _ _) hr)
+          · apply rep_connectBest
+            unfold Rep at *; exact hr
 
 theorem rep_acceptKids (s : State) (ks : List BlockAbs) (acc : List Hash) (e : Bool) (hr : Rep s) :
     Rep (acceptKids s ks acc e).1 := by
